@@ -46,6 +46,7 @@ CA = S.ca("q", 2, 3, "last")
 NUM = {"measures": ["mean", "sum", "stddev", "median"], "valid_counts": True}
 
 a_ins = [subtotal("a12", [1, 2], anchor=1, sid=1), subtotal("a3_1", [3], [1], anchor="bottom", sid=2)]
+a_diff2 = [subtotal("a1_23", [1], [2, 3], anchor="top", sid=3), subtotal("a23_1", [2, 3], [1], anchor=2, sid=4)]
 b_ins = [subtotal("b12", [1, 2], anchor="top", sid=5)]
 b_diff = [subtotal("b1_2", [1], [2], anchor="bottom", sid=6)]
 
@@ -53,6 +54,7 @@ b_diff = [subtotal("b1_2", [1], [2], anchor="bottom", sid=6)]
 FRAG = {
     "a": [{}, {"insertions": a_ins}, {"insertions": a_ins, "order": {"type": "explicit", "element_ids": [3, 1]}},
           {"insertions": a_ins, "elements": {"2": {"hide": True}}, "prune": True},
+          {"insertions": a_diff2},
           {"order": {"type": "label"}}, {"insertions": a_ins, "order": {"type": "opposing_element", "element_id": 1,
                                                                         "measure": "count_unweighted"}}],
     "d": [{}, {"insertions": a_ins}, {"insertions": a_ins, "prune": True}],
